@@ -513,6 +513,18 @@ def fuzzyDocsSeg (lex : List (List Nat)) (docs : List (List (List Nat))) (w : Li
     Except Err (List Nat) :=
   (termsWithinSeg lex w d p).map (fuzzyDocsOf docs)
 
+/-- `Searcher.search(FuzzyTerm)` on an index: every segment `(lexicon, documents)` is searched with
+    its own segment reader (`MultiTerm.matcher(searcher)` is called per sub-searcher); the hits of a
+    segment are shifted by the number of documents in the segments before it (`off`). -/
+def fuzzyDocsIndex (w : List Nat) (d p : Nat) :
+    List (List (List Nat) × List (List (List Nat))) → Nat → Except Err (List Nat)
+  | [], _ => .ok []
+  | (lex, docs) :: rest, off =>
+    match fuzzyDocsSeg lex docs w d p with
+    | .error e => .error e
+    | .ok hits =>
+      (fuzzyDocsIndex w d p rest (off + docs.length)).map fun r => hits.map (· + off) ++ r
+
 /-! ## spelling.py -/
 
 /-- `ReaderCorrector._suggestions`: `score = 0 - (maxdist + (1.0 / f * 0.5))` with
@@ -559,10 +571,56 @@ def insertBy (le : Rat × List Nat → Rat × List Nat → Bool) (x : Rat × Lis
 def sortBy (le : Rat × List Nat → Rat × List Nat → Bool) (l : List (Rat × List Nat)) :
     List (Rat × List Nat) := l.foldr (insertBy le) []
 
-/-- `Corrector.suggest(text, limit, maxdist, prefix)` given the result of `terms_within`. -/
+/-- `Corrector.suggest` on the `(score, suggestion)` items its `_suggestions` yields: the heap
+    loop, the final `sorted`, and `[sug for _, sug in sugs]`. -/
+def suggestItems (items : List (Rat × List Nat)) (limit : Nat) : Except Err (List (List Nat)) :=
+  (suggestLoop limit items []).map fun heap => (sortBy keyLe heap).map fun x => x.2
+
+/-- `Corrector.suggest(text, limit, maxdist, prefix)` of a `ReaderCorrector`, given the result of
+    `terms_within`. -/
 def suggest (terms : List (List Nat)) (freq : List Nat → Nat) (limit maxdist : Nat) :
     Except Err (List (List Nat)) :=
-  (suggestLoop limit (suggestions terms freq maxdist) []).map fun heap =>
-    (sortBy keyLe heap).map fun x => x.2
+  suggestItems (suggestions terms freq maxdist) limit
+
+/-- `fsa.find_all_matches(dfa, lookup_func, first=unull)` with a `ListCorrector.Skipper` over the
+    sorted word list as `lookup_func` (the first word at or after the key; the skipper only
+    remembers where the previous lookup ended).  It is the loop of `find_matches` started at
+    `next_valid_string(u"\\0")`; its `while match:` test cannot meet the (falsy) empty string
+    because every match is at or after `"\\0"`. -/
+def findAllMatches (nv : List Nat → Except Err (Option (List Nat))) (wordlist : List (List Nat)) :
+    Except Err (List (List Nat)) :=
+  match nv [0] with
+  | .error e => .error e
+  | .ok m => findLoop nv wordlist (2 * wordlist.length + 2) m
+
+/-- `ListCorrector._suggestions`: `for mxd in xrange(1, maxdist + 1):` build the automaton for
+    `mxd`, walk the word list, yield `(0 - mxd, sug)` for every word not seen at a smaller `mxd`. -/
+def listSuggestionsLoop (wordlist : List (List Nat)) (w : List Nat) (p : Nat) :
+    List Nat → List (List Nat) → Except Err (List (Rat × List Nat))
+  | [], _ => .ok []
+  | mxd :: rest, seen =>
+    match (levenshteinAutomaton w mxd p).toDfa with
+    | none => .error .fuel
+    | some dfa =>
+      match findAllMatches (dfa.nextValidString (levChain w mxd)) wordlist with
+      | .error e => .error e
+      | .ok sugs =>
+        let new := sugs.filter fun s => !seen.contains s
+        (listSuggestionsLoop wordlist w p rest (seen ++ new)).map fun r =>
+          (new.map fun s => ((0 : Rat) - (mxd : Rat), s)) ++ r
+
+/-- `ListCorrector(wordlist).suggest(text, limit, maxdist, prefix)`. -/
+def listSuggest (wordlist : List (List Nat)) (w : List Nat) (limit maxdist p : Nat) :
+    Except Err (List (List Nat)) :=
+  match listSuggestionsLoop wordlist w p ((List.range maxdist).map (· + 1)) [] with
+  | .error e => .error e
+  | .ok items => suggestItems items limit
+
+/-- `SimpleQueryCorrector.correct_query` for one token: `sugs = c.suggest(token.text, prefix=prefix,
+    maxdist=maxdist)` (default `limit=5`), `if sugs: sug = sugs[0]`, else the word stays. -/
+def correctToken (sugs : Except Err (List (List Nat))) (w : List Nat) : Except Err (List Nat) :=
+  sugs.map fun l => match l with
+    | [] => w
+    | s :: _ => s
 
 end WM.Lev
